@@ -554,3 +554,44 @@ def _c18_dead_rules(tier="quick", seed=0):
 
 _c18_before_dead = EXTRA_CHECKS["C18"]
 EXTRA_CHECKS["C18"] = (lambda tier="quick", seed=0: _c18_before_dead(tier, seed) + _c18_dead_rules(tier, seed))
+
+
+def _replay_units_rule():
+    """replay on the udt library framework: a non-transition parameter is given units the framework cannot convert ('fraction') together
+    with a timescale; get_databook_units carries a rule (and message) refusing exactly that"""
+    import numpy as np
+
+    at, P = _udt()
+    F = P.framework
+    name = [p for p in F.pars.index if not F.transitions[p]][0]
+    F.pars.at[name, "format"] = "fraction"
+    F.pars.at[name, "timescale"] = 1.0
+    pre = dict(framework="udt", parameter=name, format="fraction", timescale=1.0)
+    try:
+        units = F.get_databook_units(name)
+    except at.InvalidFramework as e:
+        return dict(verdict="holds", detail="refused with InvalidFramework: %s" % str(e)[:140], prestate=pre)
+    except Exception as e:  # noqa
+        return dict(verdict="violates", detail="internal error %s: %s" % (type(e).__name__, e), prestate=pre)
+    return dict(verdict="violates", detail="a timescale together with units that cannot be converted was accepted; the databook units are reported as %r" % (units,), prestate=pre)
+
+
+def _c18_rules_can_fire(tier="quick", seed=0):
+    import ast
+
+    from pyvc import source
+
+    out, scanned = [], 0
+    for mod in ("data", "framework", "programs", "parameters", "excel", "system", "utils", "function_parser", "cascade"):
+        m = source.load(mod)
+        names = list(m.functions.keys()) + ["%s.%s" % (c, f.name) for c, (node, _) in m.classes.items() for f in node.body if isinstance(f, ast.FunctionDef)]
+        for n in sorted(names):
+            scanned += 1
+            out += flow.rules_can_fire("%s:%s" % (mod, n))
+    out.append(dict(function="data, framework, programs, parameters, excel, system, utils, function_parser, cascade (all functions)", name="functions-scanned-for-rules-that-cannot-fire:%d" % scanned, kind="structural",
+                    status="proved" if scanned > 100 else "refuted", seconds=0.0, backend="ast-analysis", note="assert on a tuple, repeated elif test, duplicate Boolean operand, self-comparison, statement after an unconditional exit"))
+    return _attach(out, "elif-can-be-reached", _replay_units_rule)
+
+
+_c18_before_fire = EXTRA_CHECKS["C18"]
+EXTRA_CHECKS["C18"] = (lambda tier="quick", seed=0: _c18_before_fire(tier, seed) + _c18_rules_can_fire(tier, seed))
